@@ -180,7 +180,7 @@ where
                 push_fringe_node(&mut fringe, v, w, vw_dist);
                 sigma[w] = 0.0;
                 P[w] = vec![v];
-            } else if vw_dist == seen[w] {
+            } else if D[w] == f64::MAX && vw_dist == seen[w] {
                 sigma[w] += sigma[v];
                 P[w].push(v);
             }
